@@ -82,6 +82,9 @@ const (
 	FaultEmptyID     = "ok-with-empty-id" // CreateAuthRequest only
 	FaultCtxDeadline = "error-context-deadline"
 	FaultCtxCanceled = "error-context-canceled"
+	// FaultErrWithValue: the operation returns an error TOGETHER WITH the value it would have returned when healthy (a stale
+	// cache entry handed out next to the error, a partially constructed record): the error still means failure.
+	FaultErrWithValue = "error-together-with-a-usable-value"
 )
 
 var ErrInjected = errors.New("injected storage fault")
@@ -335,7 +338,7 @@ func (s *Store) faultErr(kind string) error {
 func isErrFaultX(kind string) bool { return kind == FaultPartial }
 
 func isErrFault(kind string) bool {
-	return kind == FaultError || kind == FaultCtxDeadline || kind == FaultCtxCanceled
+	return kind == FaultError || kind == FaultCtxDeadline || kind == FaultCtxCanceled || kind == FaultErrWithValue
 }
 
 // ---- provider.Storage --------------------------------------------------------------------------
@@ -348,6 +351,10 @@ func (s *Store) keyAnswer(idx int, fault string, base *key.CertificateAndKey) (*
 		err := s.faultErr(fault)
 		s.result(idx, "", err)
 		return nil, err
+	case FaultErrWithValue:
+		err := s.faultErr(fault)
+		s.result(idx, "", err)
+		return base, err
 	case FaultNilRecord:
 		return nil, nil
 	case FaultNoCert:
@@ -385,6 +392,14 @@ func (s *Store) GetResponseSigningKey(context.Context) (*key.CertificateAndKey, 
 
 func (s *Store) GetEntityByID(_ context.Context, entityID string) (*serviceprovider.ServiceProvider, error) {
 	idx, f := s.enter("GetEntityByID", entityID)
+	if f == FaultErrWithValue {
+		err := s.faultErr(f)
+		s.result(idx, "", err)
+		s.mu.Lock()
+		sp := s.sps[entityID]
+		s.mu.Unlock()
+		return sp, err
+	}
 	if f != "" {
 		err := s.faultErr(f)
 		s.result(idx, "", err)
@@ -418,6 +433,14 @@ func (s *Store) GetEntityByID(_ context.Context, entityID string) (*serviceprovi
 
 func (s *Store) GetEntityIDByAppID(_ context.Context, appID string) (string, error) {
 	idx, f := s.enter("GetEntityIDByAppID", appID)
+	if f == FaultErrWithValue {
+		err := s.faultErr(f)
+		s.result(idx, "", err)
+		s.mu.Lock()
+		e := s.apps[appID]
+		s.mu.Unlock()
+		return e, err
+	}
 	if f != "" {
 		err := s.faultErr(f)
 		s.result(idx, "", err)
@@ -444,6 +467,12 @@ func (s *Store) CreateAuthRequest(_ context.Context, req *samlp.AuthnRequestType
 	s.mu.Lock()
 	s.calls[idx].Request = req
 	s.mu.Unlock()
+	if f == FaultErrWithValue {
+		// a record object comes back next to the error; nothing was stored
+		err := s.faultErr(f)
+		s.result(idx, "", err)
+		return &AuthReq{store: s, ID: "00000000-dead-4bad-8bad-000000000000", AppID: appID, RelayState: relayState, ACS: acsURL, Binding: binding, RequestID: reqID}, err
+	}
 	if isErrFault(f) {
 		err := s.faultErr(f)
 		s.result(idx, "", err)
@@ -470,6 +499,17 @@ func (s *Store) CreateAuthRequest(_ context.Context, req *samlp.AuthnRequestType
 
 func (s *Store) AuthRequestByID(_ context.Context, id string) (models.AuthRequestInt, error) {
 	idx, f := s.enter("AuthRequestByID", id)
+	if f == FaultErrWithValue {
+		err := s.faultErr(f)
+		s.result(idx, "", err)
+		s.mu.Lock()
+		r, ok := s.reqs[id]
+		s.mu.Unlock()
+		if !ok {
+			return nil, err
+		}
+		return r, err
+	}
 	if f != "" {
 		err := s.faultErr(f)
 		s.result(idx, "", err)
@@ -504,6 +544,14 @@ func (s *Store) SetUserinfoWithUserID(_ context.Context, appID string, set model
 	if f == FaultPartial {
 		s.partial(userID, "", set)
 	}
+	if f == FaultErrWithValue {
+		s.mu.Lock()
+		u := s.users[userID]
+		s.mu.Unlock()
+		if u != nil {
+			s.fill(u, set)
+		}
+	}
 	if f != "" {
 		err := s.faultErr(f)
 		s.result(idx, "", err)
@@ -526,6 +574,14 @@ func (s *Store) SetUserinfoWithLoginName(_ context.Context, set models.Attribute
 	idx, f := s.enter("SetUserinfoWithLoginName", loginName)
 	if f == FaultPartial {
 		s.partial("", loginName, set)
+	}
+	if f == FaultErrWithValue {
+		s.mu.Lock()
+		u := s.logins[loginName]
+		s.mu.Unlock()
+		if u != nil {
+			s.fill(u, set)
+		}
 	}
 	if f != "" {
 		err := s.faultErr(f)
